@@ -182,6 +182,19 @@ func checkGffReader(c *Ctx, parse *ssa.Function) {
 		}
 		c.judge(st, cl.rule, "Parse:"+cl.name, af.Pos(), "at AddFeature the field holds exactly "+short(cl.want), "at AddFeature the field "+why)
 	}
+	// the location is the plain span start..end: the strand is kept in its own column, and the feature's
+	// sequence is read from the file's bases as they stand
+	{
+		got := normText(ptb.at(rec, []string{".SequenceLocation", ".Complement"}, af))
+		st, why := unknown, "holds "+short(got.String())
+		switch {
+		case got.Op == "zero" || got.isConst("false"):
+			st = holds
+		case got.isConst("true") || (len(opaqueParts(got, vocabOf(extra...))) == 0 && strings.Contains(got.String(), lineN) && got.Op == "binop"):
+			st, why = broken, "is set from the line ("+short(got.String())+"): GetSequence then answers with the reverse complement instead of bases start..end of the file's sequence"
+		}
+		c.judge(st, "COORD", "Parse:location is the plain span (Complement not set)", af.Pos(), "SequenceLocation.Complement is left false", "at AddFeature SequenceLocation.Complement "+why)
+	}
 	// attributes
 	stA, whyA := unknown, "no store into the record's attribute map found"
 	nUpd := 0
